@@ -218,6 +218,7 @@ func rulesC18(w *World, r *Report) {
 		})
 		r.Check(okLen && okOff, "C18.R4", "GetAllRawUnsortedPoints", w.pos(g.Pos()), "all N physical slots from offset in 12-byte steps", "GetAllRawUnsortedPoints does not read numberOfPoints slots starting at the archive's offset in pointSize steps")
 	}
+	ruleFilterByTimeRange(w, r, "C18.R4")
 	if fl := need(w, r, "C18.R4", w.Cmd, "filterPointsListByTimeRange"); fl != nil {
 		c, n := singleCall(fl, func(c *ssa.Call) bool { return c.Common().StaticCallee() == fn(w.Cmd, "filterPointsByTimeRange") })
 		ok := n == 1
@@ -439,6 +440,7 @@ func rulesC19(w *World, r *Report) {
 	}
 
 	r.Rule("C19.R3", "separators: ArchiveInfo.String joins step and retention with ':' and ArchiveInfoList.String joins elements with ','; ParseArchiveInfo splits on ':' and ParseArchiveInfoList on ','; ParseArchiveInfo fails iff step <= 0, retention <= 0 or retention % step != 0 and stores retention/step points", 5)
+	ruleListStringJoin(w, r, "C19.R3")
 	checkSep := func(name, sep string, isPrinter bool) {
 		f := need(w, r, "C19.R3", w.Lib, name)
 		if f == nil {
